@@ -522,6 +522,27 @@ pub fn fixture(name: &'static str, lexemes: Vec<&'static str>, seeds: Vec<&'stat
     Ok(ZooLang { name, spec, lexemes, seeds, skippable: b" \t\r\n", has_scanner })
 }
 
+/// Fields on HIDDEN rules that stay in the tree: `entry` puts the field `item` on the hidden `_kv`, whose own production gives
+/// its first child the field `key` (inner field wins, the unfielded child inherits `item`); `stmt` has two productions that
+/// begin with the same hidden `_pair` under DIFFERENT fields, told apart only by the terminator that follows.
+pub fn nestf() -> ZooLang {
+    let g = G::new("nestf")
+        .rule("source", rep(choice(vec![sym("entry"), sym("stmt")])))
+        .rule("entry", seq(vec![s("<"), field("item", sym("_kv")), s(">")]))
+        .rule("_kv", seq(vec![field("key", sym("word")), s(":"), choice(vec![sym("word"), sym("number")])]))
+        .rule("stmt", choice(vec![seq(vec![field("a", sym("_pair")), s("!")]), seq(vec![field("b", sym("_pair")), s("?")])]))
+        .rule("_pair", seq(vec![sym("word"), sym("word")]))
+        .rule("word", pat("[a-z]+"))
+        .rule("number", pat("[0-9]+"))
+        .extras(vec![pat("\\s")]);
+    ZooLang {
+        name: "nestf", spec: spec(g, None),
+        lexemes: vec!["a", "1", "<", ">", ":", "!", "?", " "],
+        seeds: vec!["", "<a:1>", "<a:b>", "a b!", "a b?", "<k:v> p q! r s?", "a b? <x:2>", "<a:>", "a b", "a!", "<a:1> <b:c> d e!"],
+        skippable: b" \t\r\n", has_scanner: false,
+    }
+}
+
 pub fn core_zoo() -> Vec<ZooLang> {
     vec![arith(), stmts(), jsonish(), glr(), lexla(), indent(), pstring(), lookfar(), resv(), colm(), modal(), docol(), nlctx()]
 }
@@ -529,7 +550,7 @@ pub fn core_zoo() -> Vec<ZooLang> {
 pub fn by_name(name: &str) -> Option<ZooLang> {
     match name {
         "arith" => Some(arith()), "stmts" => Some(stmts()), "jsonish" => Some(jsonish()), "glr" => Some(glr()), "lexla" => Some(lexla()),
-        "indent" => Some(indent()), "pstring" => Some(pstring()), "lookfar" => Some(lookfar()), "groups" => Some(groups()), "resv" => Some(resv()), "tmpl" => Some(tmpl()), "tagl" => Some(tagl()), "colm" => Some(colm()), "modal" => Some(modal()), "docol" => Some(docol()), "nlctx" => Some(nlctx()), "seam" => Some(seam()),
+        "indent" => Some(indent()), "pstring" => Some(pstring()), "lookfar" => Some(lookfar()), "groups" => Some(groups()), "resv" => Some(resv()), "tmpl" => Some(tmpl()), "tagl" => Some(tagl()), "colm" => Some(colm()), "modal" => Some(modal()), "docol" => Some(docol()), "nlctx" => Some(nlctx()), "seam" => Some(seam()), "nestf" => Some(nestf()),
         _ => None,
     }
 }
